@@ -156,3 +156,15 @@ Proof.
   - intros t Ht. apply B2. apply Hsame. now apply A1.
   - intros u Hu. apply B1. apply Hsame. now apply A2.
 Qed.
+
+(** The list the run works on names every info-hash once: the premise [NoDup (map t_info_hash ts)]
+    of the table and work-list theorems holds for [distinct_torrents l], whatever was presented. *)
+Lemma strict_sorted_nodup l : StronglySorted hlt l -> NoDup (map ih l).
+Proof.
+  induction 1 as [|t l Hs IH Hall]; cbn [map]; constructor; [|exact IH].
+  intros Hin. apply in_map_iff in Hin. destruct Hin as (u & Hu & Hinu). rewrite Forall_forall in Hall.
+  specialize (Hall u Hinu). unfold hlt in Hall. rewrite Hu, blt_irrefl in Hall. discriminate.
+Qed.
+
+Theorem distinct_nodup l : NoDup (map ih (distinct_torrents l)).
+Proof. apply strict_sorted_nodup. apply (distinct_spec l). Qed.
